@@ -182,7 +182,8 @@ PROPS = {
                     "checksum is xxh3 of the model's stream; what one glob pattern matches (mvdan/sh expansion) is an oracle",
                     "the harness's copy of the goodRun monitor is tied to the Lean definition by comparing its verdict (g=) on every step"],
         "assumptions": ["status: commands are `test -f`, commands only write their declared files and append to a trace; no deps, "
-                        "no preconditions, no sub-task calls; sources readable; explicit whole-second mtimes; every sources pattern matches "
+                        "no preconditions; sub-task calls only in the form `task: helper` where the helper has one `test -f` precondition and one command "
+                        "(a call that fails before anything runs, also under --dry); sources readable; explicit whole-second mtimes; every sources pattern matches "
                         "below the task directory (no `..`), so the name hashed with a file (its path relative to t.Dir) is its root-relative "
                         "path without the `dir/` prefix"],
         "level_text": "Theorems over TaskModel.Finger.invoke (mirror of RunTask / IsTaskUpToDate / Checksum- and TimestampChecker, the latter as "
@@ -227,10 +228,12 @@ PROPS = {
         "trusted": ["status:/sh: commands are assumed side-effect free (they do run in query modes by design)"],
         "assumptions": ["as C04; remote includes (cache writes) are outside the model"],
         "level_text": "Theorems: C12_full (every read-only invocation --dry/--status/--list[-all] [--json]/--summary leaves the state unchanged and runs "
-                      "no command), C12_marker_untouched / C12_dry_body_no_onError (the timestamp marker is never created, touched or removed: the "
-                      "dry body does not reach statusOnError; its two call sites are pinned by statusOnError_sites) and C12_continuation "
+                      "no command - histories may contain `task:` calls whose precondition fails, the one thing that fails under --dry), "
+                      "C12_marker_untouched / C12_dry_body_no_onError / C12_dry_failing_call (a failing call under --dry exits `failed` and changes "
+                      "nothing: checker.OnError sits under !(e.Dry), onError_unreachable_when_dry, TS4; C12_dry_onError_counterexample for the "
+                      "rule before the fix) and C12_continuation "
                       "(H;R;K ≈ H;K for all histories) for the model with the dry wiring proved equal to the "
-                      "extracted Gen.DryWiring table; counterexamples for the wiring as found (F7, F11). Tie: snapshot of the tree before/after every "
+                      "extracted Gen.DryWiring table; counterexamples for the wiring as found (F7, F11, TS4). Tie: snapshot of the tree before/after every "
                       "read-only CLI invocation in random histories, and the same history re-run without its read-only steps.",
         "level_note": "Trusted: Lean kernel; harness snapshot (names, contents, logical mtimes; directories' own mtimes ignored).",
     },
@@ -538,6 +541,9 @@ FINDING_PREDICATES.update({
     "C04-timestamp-generates-newer-after-edit": _c04(lambda m, f: f.get("method") == "timestamp" and f.get("laexit") == "ok" and
                                                      f.get("srcnewer") == "1" and f.get("vouch") == "gen"),
     # same multiset of (base name, content), different paths (FIXED by F8; kept so that a regression is named)
+    # a read-only --dry invocation that exits `failed` (a task: call failed) changed the tree (FIXED by TS4)
+    "C12-dry-failed-call-removes-fingerprint": lambda m: (lambda f: bool(f) and f.get("kind") == "tree-changed" and f.get("mode") == "dry" and
+                                                          f.get("exit") == "failed")(_mon(m, "c12")),
     "C05-dir-move-not-detected": _c05(lambda m, f: f.get("kind") == "change-not-detected" and f.get("samebases") == "1" and f.get("method") == "checksum"),
     # (FIXED by TS1)
     "C05-timestamp-missing-generates": _c05(lambda m, f: f.get("kind") == "missing-generates-skipped" and f.get("method") == "timestamp"),
